@@ -160,9 +160,10 @@ func (kc *Cache[V]) Delete(key []byte) *Entry[V] {
 		return nil
 	}
 	e, deleted := b.delete(key)
-	if deleted {
-		kc.count--
+	if !deleted {
+		return nil
 	}
+	kc.count--
 	return &e
 }
 
